@@ -39,6 +39,8 @@ _SINGLE_OK = {}
 
 
 def set_program(prog):
+    if _PROG[0] is prog:
+        return
     _PROG[0] = prog
     _SINGLE_OK.clear()
 
@@ -106,7 +108,7 @@ def norm(t, depth=0):
         if x.op == "call":
             f, g, args = x.args
             if vn == "Some" and f in COMM_CALLS:
-                return (COMM_CALLS[f],) + tuple(sorted((norm(args[0], d), norm(args[1], d)), key=repr))
+                return _comm(COMM_CALLS[f], norm(args[0], d), norm(args[1], d))
             if vn == "Ok" and f in ("convert::TryInto::try_into", "convert::TryFrom::try_from"):
                 return norm(args[0], d)
             if vn == "Ok" and f == "parse::ParseAt::validate_entsize":
@@ -164,9 +166,9 @@ def norm(t, depth=0):
     if op == "bin":
         o, x, y, ty = a
         if o == "Add":
-            return ("+",) + tuple(sorted((norm(x, d), norm(y, d)), key=repr))
+            return _comm("+", norm(x, d), norm(y, d))
         if o == "Mul":
-            return ("*",) + tuple(sorted((norm(x, d), norm(y, d)), key=repr))
+            return _comm("*", norm(x, d), norm(y, d))
         if o == "Sub":
             return ("-", norm(x, d), norm(y, d))
         if o in ("BitAnd", "BitOr", "BitXor", "Eq", "Ne"):
@@ -272,12 +274,22 @@ def C(v):
     return ("c", v)
 
 
+def _comm(op, a, b):
+    """commutative normal form with the neutral element removed: x + 0 = x, x * 1 = x (also for the checked forms that succeeded)"""
+    unit = ("c", 0) if op == "+" else ("c", 1)
+    if a == unit:
+        return b
+    if b == unit:
+        return a
+    return (op,) + tuple(sorted((a, b), key=repr))
+
+
 def ADD(a, b):
-    return ("+",) + tuple(sorted((a, b), key=repr))
+    return _comm("+", a, b)
 
 
 def MUL(a, b):
-    return ("*",) + tuple(sorted((a, b), key=repr))
+    return _comm("*", a, b)
 
 
 def SLICE(d, a, b):
